@@ -188,7 +188,10 @@ def _parse_dt(x: Any, strict: bool | None = None) -> datetime:
     if isinstance(x, datetime):
         return x if x.tzinfo is not None else x.replace(tzinfo=timezone.utc)
     if isinstance(x, (int, float)):
-        return datetime.fromtimestamp(float(x), tz=timezone.utc)
+        try:
+            return datetime.fromtimestamp(float(x), tz=timezone.utc)
+        except (OverflowError, ValueError, OSError) as e:  # NaN, infinite or out-of-range epoch
+            raise ConditionTypeError("condition_type_mismatch") from e
     if isinstance(x, str):
         try:
             dt = datetime.fromisoformat(x.replace("Z", "+00:00"))
